@@ -116,6 +116,12 @@ def write_molecule_itp(molecule, outfile, header=(), moltype=None,
         if not all([attribute in atom for _, atom in molecule.atoms]):
             raise ValueError('Not all atom have a {}.'.format(attribute))
 
+    # The columns of the [atoms] section are positional: a mass can only be
+    # written if the charge column before it is filled as well. Otherwise the
+    # mass would be read back as the charge.
+    if any('mass' in atom and 'charge' not in atom for _, atom in molecule.atoms):
+        raise ValueError('Atoms with a mass must also have a charge.')
+
     # Get the maximum length of each atom field so we can align the fields.
     # Atom indexes are written as a consecutive series starting from 1.
     # The maximum index of a 0-based series is `len(x) - 1`; because the
